@@ -180,6 +180,24 @@ func CheckBoot(c BCase) (v vcase.Verdict) {
 			v.Failf("benchmark %s: summary not Present although numerator and denominator exist", name)
 			return
 		}
+		if len(c.Points) > 1 {
+			// the summary of a point is a function of its own samples (hashes, level and
+			// resample count being equal): summarised on its own it comes out the same
+			one := BCase{Points: []BPoint{p}, Conf: c.Conf, N: c.N, Kind: c.Kind}
+			idx := make([]int, len(p.Num)+len(p.Den))
+			for k := range idx {
+				idx[k] = k
+			}
+			alone, err := one.summarise(idx)
+			if err != nil {
+				v.Failf("%v", err)
+				return
+			}
+			if !eq(a, alone["P0"]) {
+				v.Failf("benchmark %s: AddSummaries(%v, %d) gives %+v next to %d other benchmarks but %+v for the same samples on their own (num %s den %s)", name, c.Conf, c.N, a, len(c.Points)-1, alone["P0"], fmtVals(p.Num), fmtVals(p.Den))
+				return
+			}
+		}
 		if a.date != wantDate {
 			v.Failf("benchmark %s: summary Date %q, want %q", name, a.date, wantDate)
 			return
